@@ -68,6 +68,10 @@ def _work(items):
 def run(ctx):
     cfgs = ["MC_Query_c15q.cfg", "MC_Query_q2.cfg"] if ctx.quick else ["MC_Query_c15t.cfg", "MC_Query_t2.cfg"]
     corpus = querycorpus.tlc_corpus(ctx, "MC_Query", cfgs)
+    if ctx.quick:
+        # quick tier: every collector / keyword case, every 4th of the others (seeded); thorough replays all
+        corpus = [(d, [c for k, c in enumerate(cs) if "COLLECTOR" in c["ty"] or "KEYWORD" in c["ty"]
+                       or (k + len(d) + ctx.seed) % 4 == 0]) for d, cs in corpus]
     items = [(d, cs, querycorpus.variant_of(d, ctx.seed, ctx.quick)) for d, cs in corpus]
     tot = {"cases": 0, "runs": 0, "nontrivial": 0}
     for out, stats in querycorpus.pmap(_work, items, chunk=8):
